@@ -24,7 +24,8 @@
 (***************************************************************************)
 EXTENDS ISAlign, TLC
 
-CONSTANTS Fields     \* Fields[c] = sequence of [hasdef, def]: the init fields of class c (name = position)
+CONSTANTS Fields,    \* Fields[c] = sequence of [hasdef, def]: the init fields of class c (name = position)
+          InsertByRemaining   \* design as coded before fix F31 (TRUE): MC_Assign.C09 fails for calls
 \* a class whose code is written with POSITIONAL arguments only and never omits a default (collections.defaultdict:
 \* defaultdict(factory, {items})) - the last class, if the model has three
 PosCls == 3
@@ -168,12 +169,19 @@ Assign(tm, v, A) ==
                nOld == np + Len(tm.kn)
                keptKw(q) == keepKw(q) \/ ~(delCat(q) \in A)
                kwEnt(q) == <<tm.kn[q], IF keepKw(q) THEN sub(q).term ELSE tm.ke[q]>>
-               \* an inserted keyword goes in front of the old element (positional or keyword) whose index is the
-               \* number of surviving known keywords that precede it in field order (generic_call_adapter.py)
+               \* an inserted keyword goes in front of the next keyword (in field order) that the call already has and
+               \* keeps a non-default value - at the index that keyword has among the OLD arguments - or to the end
+               \* (since fix F31; as coded before: at the index "number of preceding known non-default keywords",
+               \* which is an index into the arguments that REMAIN after the update-deletions, so the result
+               \* depended on whether update was approved before fix)
                known(j) == Has(tm.kn, j)
-               posOf(j) == Cardinality({i \in 1..(j - 1) : ~IsDefault(tm.c, i, v.f[i]) /\ known(i)})
+               nextKnown(j) == {i \in (j + 1)..nf : known(i) /\ ~IsDefault(tm.c, i, v.f[i])}
+               posNew(j) == IF nextKnown(j) = {} THEN nOld
+                            ELSE np + Idx(tm.kn, CHOOSE i \in nextKnown(j) : \A i2 \in nextKnown(j) : i <= i2) - 1
+               posOld(j) == Cardinality({i \in 1..(j - 1) : ~IsDefault(tm.c, i, v.f[i]) /\ known(i)})
+               posOf(j) == IF InsertByRemaining THEN (IF posOld(j) > nOld THEN nOld ELSE posOld(j)) ELSE posNew(j)
                insAt(ix) == IF "fix" \in A
-                            THEN SelectSeq(newNames, LAMBDA j : isIns(j) /\ (posOf(j) = ix \/ (ix = nOld /\ posOf(j) > nOld)))
+                            THEN SelectSeq(newNames, LAMBDA j : isIns(j) /\ posOf(j) = ix)
                             ELSE <<>>
                piece[ix \in 0..nOld] ==
                   [z \in DOMAIN insAt(ix) |-> <<insAt(ix)[z], Canon(v.f[insAt(ix)[z]])>>]
